@@ -72,7 +72,7 @@ const CONTEXTS: [(&str, &str, usize, Option<Kind>); 21] = [
     ("WHILE condition", "WHILE (@) AND 0\nWEND", 0, Some(Kind::Num)),
     ("SELECT subject", "SELECT CASE @\nCASE ELSE\nEND SELECT", 0, None),
     ("CASE of a numeric SELECT", "SELECT CASE 1\nCASE @\nEND SELECT", 1, Some(Kind::Num)),
-    ("CASE of a string SELECT", "SELECT CASE \"a\"\nCASE 1 TO 2, @\nEND SELECT", 1, Some(Kind::Str)),
+    ("CASE of a string SELECT", "SELECT CASE \"a\"\nCASE \"b\" TO \"c\", @\nEND SELECT", 1, Some(Kind::Str)),
     ("FOR limit", "FOR Q% = 1 TO (@) AND 1\nNEXT", 0, Some(Kind::Num)),
     ("array subscript", "AI%((@) AND 1) = 7", 0, Some(Kind::Num)),
     ("by-value argument of a SUB (INTEGER)", "PI (@)", 0, Some(Kind::Num)),
@@ -198,7 +198,10 @@ fn typed_case(ctx: usize, expr: &str, kind: Kind, acc: &mut Acc, replay: Value) 
             }
             match unsound(&text, &o) {
                 Some(why) => acc.bad(format!("C12|typed|{}|unsound", cname), format!("{} with `{}`: {}", cname, expr, why), text, replay),
-                None => acc.hit(&format!("accepted:{}", o.end.class())),
+                None => {
+                    acc.hit(&format!("accepted:{}", o.end.class()));
+                    acc.hit(&format!("accepted in position: {}", cname));
+                }
             }
         }
     }
